@@ -171,9 +171,12 @@ func (c *Cache) Fetch(ctx context.Context, mv module.Version) (module.SourceLoc,
 		return module.SourceLoc{}, err
 	}
 	if err := modzip.Unzip(dir, mv, zipfile); err != nil {
-		if rmErr := RemoveAll(dir); rmErr == nil {
-			os.Remove(partialPath)
-		}
+		// Leave the .partial marker in place: a concurrent reader that saw
+		// the directory before this rollback must not find the marker gone
+		// afterwards and conclude that the extraction completed. A marker
+		// without a directory is the state a crash leaves too; the next
+		// Fetch cleans it up under the lock.
+		RemoveAll(dir) // best effort
 		return module.SourceLoc{}, err
 	}
 	if err := os.Remove(partialPath); err != nil {
